@@ -125,6 +125,10 @@ func tryAdd(hs *mux.Hosts, d string) (ok bool) {
 
 func matchHost(hs *mux.Hosts, host string) (ok bool, params map[string]string, pan any) {
 	ctx := types.NewContext()
+	if len(host)%3 == 0 { // the object the pool's New function makes: it never owned a parameter map
+		ctx.Destroy()
+		ctx = &types.Context{}
+	}
 	defer ctx.Destroy()
 	defer func() {
 		if p := recover(); p != nil {
@@ -140,9 +144,29 @@ func matchHost(hs *mux.Hosts, host string) (ok bool, params map[string]string, p
 func c14AddOnly(c *Ctx) {
 	r := c.R
 	ics := stdIC
-	hs := newHostsWith(ics, r.Bool())
 	table := hostPool.Table(r, r.Range(2, 20))
 	var accepted []string
+	lock := r.Bool()
+	hs := (*mux.Hosts)(nil)
+	// the other entry point: the first domain goes through the constructor (it is parsed before any interceptor is
+	// registered, so only a domain without interceptor rules qualifies), in a random upper/lower-case spelling
+	if d := table[0]; r.Bool() && !strings.Contains(d, ":digit}") && !strings.Contains(d, ":any}") && !strings.Contains(d, ":word}") {
+		func() {
+			defer func() { recover() }()
+			hs = mux.NewHosts(lock, randCaseLiterals(r, d))
+		}()
+		if hs != nil {
+			for name, f := range ics.Funcs {
+				hs.RegisterInterceptor(mux.InterceptorFunc(f), name)
+			}
+			accepted = append(accepted, d)
+			table = table[1:]
+			c.Class("domain_given_to_the_constructor")
+		}
+	}
+	if hs == nil {
+		hs = newHostsWith(ics, lock)
+	}
 	for _, d := range table {
 		if tryAdd(hs, randCaseLiterals(r, d)) {
 			accepted = append(accepted, d)
